@@ -1510,9 +1510,15 @@ class Explorer:
                 break
         if bad is None:
             for (label, verdict, _d) in cs.obligations:
+                if verdict == "refuted" and label.startswith("native:"):
+                    continue  # obligations that only exist natively (e.g. compiled kernels) are reported below, as violations
                 if verdict == "refuted" and not any(l == label for (l, _a, _dd) in s.cex):
                     bad = ("obligation", label, "holds symbolically, fails concretely")
                     break
+        for (label, verdict, d) in cs.obligations:
+            if verdict == "refuted" and label.startswith("native:"):
+                self.stats.cex.append({"params": jsonable(self.params), "label": label, "assignment": assignment, "detail": jsonable(d),
+                                       "reproduced": True, "observed": jsonable(got), "concrete_failed": [label]})
         if bad is None:
             for g in cs.goals:  # goals reachable only in native mode (e.g. seeded double runs)
                 self.stats.goals[g] = self.stats.goals.get(g, 0) + 1
